@@ -247,6 +247,15 @@ class C01(fw.Prop):
             o = build(d)
             bs = o.to_bytes()
             from dlms_cosem.connection import XDlmsApduFactory
+            # decoding is a function of the bytes alone: damaged versions decoded (and refused or not) before the
+            # genuine bytes must not influence what the genuine bytes decode to
+            for bad in (bs[:-1], bs[:len(bs) // 2], bs + b"\x00\x01"):
+                try:
+                    XDlmsApduFactory.apdu_from_bytes(bad)
+                except fw._Timeout:
+                    raise
+                except Exception:  # noqa
+                    pass
             back = XDlmsApduFactory.apdu_from_bytes(bs)
             if canon(back) != canon(o):
                 return "ok " + fw.hx(bs) + " decoded-differs: " + canon(back)[:120] + " != " + canon(o)[:120]
